@@ -95,10 +95,11 @@ func (c *chunked) Read(p []byte) (int, error) {
 }
 
 type putCfg struct {
-	Chunks  []int `json:"chunks"` // nil: bytes.Reader (one big write)
-	Flushes int   `json:"flushes"`
-	CRC     bool  `json:"crc"`
-	EOFTog  bool  `json:"eof_with_data"`
+	Chunks  []int  `json:"chunks"` // nil: bytes.Reader (one big write)
+	Flushes int    `json:"flushes"`
+	CRC     bool   `json:"crc"`
+	EOFTog  bool   `json:"eof_with_data"`
+	Prefix  string `json:"key_prefix,omitempty"` // cafs.Prefix: every blob of this Fs lives under prefix+key
 }
 
 func drawCfg(t *rapid.T, L int, label string) putCfg {
@@ -124,11 +125,15 @@ func newFs(store *memstore.Store, L uint32, c putCfg) (cafs.Fs, error) {
 	} else {
 		opts = append(opts, cafs.Backend(store))
 	}
+	if c.Prefix != "" {
+		opts = append(opts, cafs.Prefix(c.Prefix))
+	}
 	return cafs.New(opts...)
 }
 
 // checkPut verifies one Put result against the oracle and the store layout
-func checkPut(be *memstore.Backend, res cafs.PutRes, L uint32, content []byte) error {
+func checkPut(be *memstore.Backend, res cafs.PutRes, L uint32, content []byte, prefix ...string) error {
+	pfx := strings.Join(prefix, "")
 	root, leaves, err := oracle.Tree(L, content)
 	if err != nil {
 		return fmt.Errorf("oracle: %v", err)
@@ -144,7 +149,7 @@ func checkPut(be *memstore.Backend, res cafs.PutRes, L uint32, content []byte) e
 		if got != lk {
 			return fmt.Errorf("leaf key %d is %s, oracle says %s", i, got, lk)
 		}
-		blob, ok := be.RawGet(lk)
+		blob, ok := be.RawGet(pfx + lk)
 		if !ok {
 			return fmt.Errorf("leaf blob %d (%s) missing from the store", i, lk)
 		}
@@ -156,7 +161,7 @@ func checkPut(be *memstore.Backend, res cafs.PutRes, L uint32, content []byte) e
 			return fmt.Errorf("leaf blob %d does not hold the leaf bytes", i)
 		}
 	}
-	rb, ok := be.RawGet(root)
+	rb, ok := be.RawGet(pfx + root)
 	if !ok {
 		return fmt.Errorf("root blob missing")
 	}
@@ -243,6 +248,7 @@ type histOp struct {
 	Content int    `json:"content"`
 	Cfg     putCfg `json:"cfg"`
 	Leaf    int    `json:"leaf,omitempty"`
+	Prefix  string `json:"prefix,omitempty"` // name space (cafs.Prefix) the operation works in
 }
 
 func TestPropHistory(t *testing.T) {
@@ -264,13 +270,17 @@ func TestPropHistory(t *testing.T) {
 			{},    // 7: empty
 			other, // 8
 		}
+		// name spaces sharing the blob store: mostly the plain one, sometimes a prefixed one, sometimes both
+		prefixes := rapid.SampledFrom([][]string{{""}, {""}, {""}, {"ns-"}, {"", "ns-"}, {"", "ns-"}, {"a/", "a/b-"}}).Draw(t, "prefixes")
 		nops := rapid.IntRange(8, 30).Draw(t, "nops")
 		var ops []histOp
 		for i := 0; i < nops; i++ {
 			k := rapid.SampledFrom([]string{"put", "put", "put", "put", "inject_empty_leaf", "inject_empty_root"}).Draw(t, "kind")
 			op := histOp{Kind: k, Content: rapid.IntRange(0, len(pool)-1).Draw(t, "content")}
+			op.Prefix = prefixes[rapid.IntRange(0, len(prefixes)-1).Draw(t, "prefix")]
 			if k == "put" {
 				op.Cfg = drawCfg(t, li, "cfg")
+				op.Cfg.Prefix = op.Prefix
 			} else {
 				op.Leaf = rapid.IntRange(0, 4).Draw(t, "leaf")
 			}
@@ -279,8 +289,12 @@ func TestPropHistory(t *testing.T) {
 		hx.Journal(map[string]interface{}{"L": L, "cut": cut, "ops": ops})
 
 		be := memstore.NewBackend("blob")
-		stored := map[int]string{}   // content index -> key
-		byKey := map[string]string{} // key -> sha of content
+		type nsContent struct {
+			ns string
+			ci int
+		}
+		stored := map[nsContent]string{} // (name space, content index) -> key
+		byKey := map[string]string{}     // key -> sha of content
 		dirtyRoot := map[string]bool{}
 		var sawDup, sawShared bool
 		classes := map[string]int{}
@@ -289,6 +303,11 @@ func TestPropHistory(t *testing.T) {
 			root, leaves, err := oracle.Tree(L, content)
 			if err != nil {
 				t.Fatalf("oracle: %v", err)
+			}
+			// from here on root and leaves are the store keys within the operation's name space
+			root = op.Prefix + root
+			for i := range leaves {
+				leaves[i] = op.Prefix + leaves[i]
 			}
 			before := be.Snapshot()
 			injected := map[string]bool{}
@@ -331,13 +350,13 @@ func TestPropHistory(t *testing.T) {
 			if hung || panicked || err != nil {
 				t.Fatalf("step %d Put: %v hung=%v", step, err, hung)
 			}
-			if err := checkPut(be, res, L, content); err != nil {
+			if err := checkPut(be, res, L, content, op.Prefix); err != nil {
 				t.Fatalf("step %d (content %d): %v", step, op.Content, err)
 			}
-			_, was := stored[op.Content]
+			_, was := stored[nsContent{op.Prefix, op.Content}]
 			// an equal byte string may sit at another pool index
 			sum := fmt.Sprintf("%x", sha256.Sum256(content))
-			if prev, ok := byKey[res.Key.String()]; ok {
+			if prev, ok := byKey[op.Prefix+res.Key.String()]; ok {
 				if prev != sum {
 					t.Fatalf("step %d: two different contents got the same key %s", step, res.Key)
 				}
@@ -369,8 +388,11 @@ func TestPropHistory(t *testing.T) {
 					classes["fresh"]++
 				}
 			}
-			stored[op.Content] = res.Key.String()
-			byKey[res.Key.String()] = sum
+			stored[nsContent{op.Prefix, op.Content}] = res.Key.String()
+			byKey[op.Prefix+res.Key.String()] = sum
+			if op.Prefix != "" {
+				classes["prefixed"]++
+			}
 			// no pre-existing (non-empty) blob changed
 			after := be.Snapshot()
 			for k, o := range before {
@@ -386,8 +408,9 @@ func TestPropHistory(t *testing.T) {
 				}
 			}
 			// every object stored so far still reads back
-			rfs, _ := newFs(be.View("r"), L, putCfg{Flushes: 1})
-			for ci, key := range stored {
+			for nc, key := range stored {
+				ci := nc.ci
+				rfs, _ := newFs(be.View("r"), L, putCfg{Flushes: 1, Prefix: nc.ns})
 				k, _ := cafs.KeyFromString(key)
 				var got []byte
 				err, hung, panicked := hx.Guard(20*time.Second, func() error {
@@ -407,7 +430,7 @@ func TestPropHistory(t *testing.T) {
 				}
 			}
 		}
-		sig := fmt.Sprintf("dup=%d shared=%d fresh=%d il=%d ir=%d", min(classes["dup"], 3), min(classes["shared"], 3), min(classes["fresh"], 3), min(classes["inject_leaf"], 2), min(classes["inject_root"], 2))
+		sig := fmt.Sprintf("dup=%d shared=%d fresh=%d il=%d ir=%d ns=%d pfx=%d", min(classes["dup"], 3), min(classes["shared"], 3), min(classes["fresh"], 3), min(classes["inject_leaf"], 2), min(classes["inject_root"], 2), len(prefixes), min(classes["prefixed"], 2))
 		stats.Case(sig, sawDup && sawShared, func() interface{} { return map[string]interface{}{"L": L, "cut": cut, "ops": ops} })
 		for k, v := range classes {
 			stats.Count("hist_"+k, v)
